@@ -38,7 +38,7 @@ Definition rword (p : cpc) : list hookname :=
   | P0 => []
   | PHookConnect | PSem _ | PConnecting => [HServerConnect]
   | PHookErrKilled | PHookErr _ => [HServerConnectError; HServerConnect]
-  | PHookConnected | PRead | PEvent => [HServerConnected; HServerConnect]
+  | PHookConnected | PRead | PDrainLock _ | PDrain _ _ | PEvent => [HServerConnected; HServerConnect]
   | PHookDisc _ => [HServerDisconnected; HServerConnected; HServerConnect]
   | PDone x => xword x
   end.
@@ -53,7 +53,7 @@ Definition mword (p : mpc) : list hookname :=
 Definition wokv (p : cpc) (w : wst) (e t : bool) : Prop :=
   match p with
   | P0 | PHookConnect | PHookErrKilled | PSem _ | PConnecting | PHookErr _ => w = WNone /\ e = true /\ t = true
-  | PHookConnected | PRead | PEvent => w = WOpen /\ e = true /\ t = true
+  | PHookConnected | PRead | PDrainLock _ | PDrain _ _ | PEvent => w = WOpen /\ e = true /\ t = true
   | PHookDisc _ => w = WClosed /\ e = false /\ t = true
   | PDone (XClosed _) => w = WClosed /\ e = false
   | PDone XLostConnectedHook => w = WOpen
@@ -64,7 +64,8 @@ Definition wok (x : conn) : Prop := wokv (c_pc x) (c_writer x) (c_entry x) (c_ta
 Definition cinv (c : nat) (s : st) : Prop :=
   proj c (trace s) = rword (c_pc (getc s c)) /\ wok (getc s c).
 
-Definition kpc (p : cpc) : cpc := match p with PSem _ => PSem WPending | _ => p end.
+Definition kpc (p : cpc) : cpc :=
+  match p with PSem _ => PSem WPending | PDrainLock _ => PDrainLock WPending | _ => p end.
 Lemma rword_kpc : forall p, rword (kpc p) = rword p. Proof. destruct p; auto. Qed.
 Lemma wokv_kpc : forall p w e t, wokv (kpc p) w e t <-> wokv p w e t. Proof. destruct p; simpl; tauto. Qed.
 
@@ -77,7 +78,7 @@ Proof. unfold ksoft; intuition congruence. Qed.
 Lemma psoft_ksoft : forall x y, psoft x y -> ksoft x y.
 Proof.
   unfold psoft, ksoft. intros x y (A & P & T & E & W). repeat split; auto.
-  destruct P as [P | [P P']]; rewrite P; auto. rewrite P'. auto.
+  destruct P as [P | [[P P'] | [P P']]]; rewrite P; auto; rewrite P'; auto.
 Qed.
 Definition knew (y : conn) : Prop := exists a, ksoft (new_conn a) y.
 
@@ -199,8 +200,19 @@ Proof. intros. unfold hook_at. apply of_goto. apply of_emit; auto. simpl. rewrit
 Lemma of_server_event : forall c s s1 e, oframe c s s1 -> oframe c s (server_event s1 e).
 Proof. intros. eapply of_frame; eauto. apply frame_server_event. Qed.
 
-Lemma of_drain : forall c s s1, oframe c s s1 -> oframe c s (drain_writers s1).
-Proof. intros. eapply of_frame; eauto. apply frame_drain. Qed.
+Lemma of_set_lock : forall c s s1 b q, oframe c s s1 -> oframe c s (set_lock s1 b q).
+Proof. intros. eapply of_frame; eauto. apply frame_set_lock. Qed.
+Lemma of_drain_error : forall c s s1 d, oframe c s s1 -> oframe c s (drain_error s1 d).
+Proof. intros. eapply of_frame; eauto. apply frame_drain_error. Qed.
+Lemma of_wake_first : forall c s s1, oframe c s s1 -> oframe c s (wake_first s1).
+Proof.
+  intros. unfold wake_first. destruct (dlockq s1); auto. destruct (c_pc (getc s1 n)) eqn:E; auto. destruct w; auto.
+  apply of_setc_other; auto. unfold ksoft; simpl. rewrite E. auto.
+Qed.
+Lemma of_lock_release : forall c s s1, oframe c s s1 -> oframe c s (lock_release s1).
+Proof. intros. unfold lock_release. destruct (dlocked s1); auto. apply of_wake_first, of_set_lock. auto. Qed.
+Lemma of_setc_cong : forall c s s1 d b, oframe c s s1 -> oframe c s (setc s1 d (with_cong (getc s1 d) b)).
+Proof. intros. eapply of_frame; eauto. apply frame_setc. unfold psoft; simpl; intuition. Qed.
 
 Lemma of_hc_cleanup : forall c s s1 b, oframe c s s1 -> oframe c s (hc_cleanup s1 c b).
 Proof.
@@ -224,12 +236,29 @@ Proof. intros. unfold hc_read. apply of_goto. apply of_emit; auto. Qed.
 Lemma of_enter : forall c s s1, oframe c s s1 -> oframe c s (enter_sem_body s1 c).
 Proof. intros. unfold enter_sem_body. apply of_goto. apply of_emit; auto. Qed.
 
+Lemma of_drain_go : forall c l s s1, oframe c s s1 -> oframe c s (drain_go s1 c l).
+Proof.
+  induction l; simpl; intros.
+  - apply of_hc_read, of_lock_release. auto.
+  - destruct (c_writer (getc s1 a)); auto. destruct (c_broken (getc s1 a)).
+    + apply IHl, of_drain_error. auto.
+    + destruct (c_cong (getc s1 a)); auto. apply of_goto, of_emit; auto.
+Qed.
+Lemma of_drain_start : forall c s s1, oframe c s s1 -> oframe c s (drain_start s1 c).
+Proof.
+  intros. unfold drain_start. destruct (lock_free s1).
+  - apply of_drain_go, of_set_lock. auto.
+  - apply of_goto, of_set_lock. auto.
+Qed.
+
 Ltac ofr :=
   repeat first
     [ apply oframe_refl
+    | apply of_drain_start | apply of_drain_go | apply of_lock_release | apply of_wake_first | apply of_set_lock
+    | apply of_drain_error | apply of_setc_cong
     | apply of_finish | apply of_hook_at; [reflexivity|] | apply of_hc_read | apply of_enter
     | apply of_hc_after_loop | apply of_hc_cleanup | apply of_release_of | apply of_server_event
-    | apply of_drain | apply of_goto | apply of_wake_next | apply of_set_sem | apply of_setc ].
+    | apply of_goto | apply of_wake_next | apply of_set_sem | apply of_setc ].
 
 Lemma oframe_run_conn : forall s c, oframe c s (run_conn s c).
 Proof.
@@ -243,8 +272,11 @@ Proof.
   - destruct (c_addr (getc s c)); [|ofr]. destruct w; ofr.
   - destruct (c_addr (getc s c)); [|ofr]. destruct w; ofr.
     match goal with |- context [Nat.ltb 0 ?v] => destruct (Nat.ltb 0 v) end; ofr.
-  - destruct (c_wk (getc s c)) as [[| | |[|]]|]; ofr.
-  - destruct (c_wk (getc s c)) as [[| |[| |]|]|]; ofr.
+  - destruct (c_wk (getc s c)) as [[| | |[|]|]|]; ofr.
+  - destruct (c_wk (getc s c)) as [[| |[| |]| |]|]; ofr.
+  - destruct w; ofr; match goal with |- context [if dlocked ?S then _ else _] => destruct (dlocked S) end; ofr.
+  - destruct w; ofr.
+  - destruct (c_wk (getc s c)) as [[| | | |[|]]|]; ofr.
 Qed.
 
 (* ---------------------------------------------------------------- what a step of task c does to c itself *)
